@@ -76,6 +76,8 @@ type outcome struct {
 	failures []failure
 	rendered map[string][]byte
 	skipped  string
+	// preRendered: the project was rendered with WithSecretContent before the plain renderings
+	preRendered bool
 }
 
 var (
@@ -307,6 +309,15 @@ func roundTrip(work string, c *ld.Case, formats ...string) outcome {
 		return out
 	}
 	out.rendered = map[string][]byte{}
+	if (len(p.Services)+len(p.Secrets)+len(p.Configs))%2 == 0 {
+		// an earlier rendering made with the secret-content option (what `config --resolve…` style
+		// clients do first) must leave the plain renderings of the same project as they are
+		core.Guard(func() {
+			_, _ = p.MarshalYAML(types.WithSecretContent)
+			_, _ = p.MarshalJSON(types.WithSecretContent)
+		})
+		out.preRendered = true
+	}
 	for _, format := range formats {
 		render := func(q *types.Project) (b []byte, err error, pi *core.PanicInfo) {
 			pi = core.Guard(func() {
